@@ -6,6 +6,18 @@ use std::sync::atomic::{AtomicUsize, Ordering as AO};
 use std::sync::Arc;
 use vsched::rt;
 
+/// Generic input-stream behaviours selectable in every pipe scenario: `sinpoll`=k (the next k polls that find nothing wake the
+/// registered waker from inside poll_next, like a cooperative yield), `seager`=1 (the waker is registered on every poll)
+fn stream_env(cfg: &Cfg, ctl: &StreamCtl) {
+    let k = cfg.opt("sinpoll", 0);
+    if k > 0 {
+        ctl.set_wake_in_poll(k as usize);
+    }
+    if cfg.opt("seager", 0) == 1 {
+        ctl.set_eager_waker();
+    }
+}
+
 pub fn list() -> Vec<(&'static str, super::Scenario)> {
     vec![("pipe_drop_output", pipe_drop_output), ("pipe_in_items", pipe_in_items), ("pipe_out", pipe_out), ("pipe_steal", pipe_steal), ("pipe_rewake", pipe_rewake), ("pipe_partial", pipe_partial)]
 }
@@ -28,6 +40,7 @@ fn pipe_drop_output(cfg: &Cfg) {
     w.prelude(cfg);
     let (obj, st) = dobj(&w);
     let (stream, ctl) = scripted_stream(&[]);
+    stream_env(cfg, &ctl);
     let closure_drops = Arc::new(AtomicUsize::new(0));
     let dc = DropCount(closure_drops.clone());
     let st2 = st.clone();
@@ -178,6 +191,7 @@ fn pipe_in_items(cfg: &Cfg) {
     let (obj, st) = dobj(&w);
     let pre: Vec<u32> = if pat == 0 { (1..=n).collect() } else { vec![] };
     let (stream, ctl) = scripted_stream(&pre);
+    stream_env(cfg, &ctl);
     // `late`=1: the input registers its waker on every poll (also the one that reports the end) and fires it once more, late
     if cfg.opt("late", 0) == 1 {
         ctl.set_eager_waker();
@@ -349,6 +363,7 @@ fn pipe_out(cfg: &Cfg) {
     let (obj, st) = dobj(&w);
     let pre: Vec<u32> = if pat == 0 { (1..=n).collect() } else { vec![] };
     let (stream, ctl) = scripted_stream(&pre);
+    stream_env(cfg, &ctl);
     let st2 = st.clone();
     let mut out = pipe(obj.clone(), stream, move |p: &mut Payload, item: u32| {
         p.check("pipe-item");
@@ -416,6 +431,7 @@ fn pipe_steal(cfg: &Cfg) {
     rt::quiesce();
     let (obj, st) = dobj(&w);
     let (stream, ctl) = scripted_stream(&[]);
+    stream_env(cfg, &ctl);
     let g = Gate::new();
     let (st2, g2) = (st.clone(), g.clone());
     let mut out = pipe(obj.clone(), stream, move |p: &mut Payload, item: u32| {
@@ -490,6 +506,7 @@ fn pipe_rewake(cfg: &Cfg) {
     w.prelude(cfg);
     let (obj, st) = dobj(&w);
     let (stream, ctl) = scripted_stream(&[]);
+    stream_env(cfg, &ctl);
     let st2 = st.clone();
     let mut out = pipe(obj.clone(), stream, move |p: &mut Payload, item: u32| {
         p.check("pipe-item");
@@ -562,6 +579,7 @@ fn pipe_partial(cfg: &Cfg) {
     w.prelude(cfg);
     let (obj, st) = dobj(&w);
     let (stream, ctl) = scripted_stream(&[]);
+    stream_env(cfg, &ctl);
     let st2 = st.clone();
     let processed = Arc::new(AtomicUsize::new(0));
     let processed2 = processed.clone();
